@@ -195,6 +195,8 @@ def _parse_title(title: str, lit: LineIterator) -> tuple[list[tuple], dict[str]]
         "charge": ("charge", float),
     }
     data = {}
+    # The default of the extended XYZ format when the title line has no Properties field.
+    atom_columns = _parse_properties("species:S:1:pos:R:3", lit)
     for key_value_pair in key_value_pairs:
         if "=" in key_value_pair:
             key, value = key_value_pair.split("=", 1)
